@@ -73,7 +73,7 @@ pub fn replay(prop: &str, file: &str) -> i32 {
 	let r = j.get("replay").cloned().unwrap_or(j.clone());
 	match prop {
 		"C06" | "C01" | "C07" | "C11" if r["engine"] == "world" => replay_world(prop, &r),
-		"C02" | "C03" | "C07" | "C07c" if r["engine"] == "crash" => crash::replay(if prop == "C07c" { "C07" } else { prop }, &r),
+		"C02" | "C03" | "C07" | "C07c" | "C11" if r["engine"] == "crash" => crash::replay(if prop == "C07c" { "C07" } else { prop }, &r),
 		"C05" | "C17" | "C04" | "C01" | "C02" | "C04s" | "C01s" | "C02s" if r["engine"] == "schedx" => sched::replay(prop.trim_end_matches('s'), &r),
 		"C04" => c04::replay(&r),
 		"C08" => c08::replay(&r),
